@@ -59,6 +59,11 @@ class _Binary(OpDef):
             out.append({"a": L(a), "form": "ts"})
             out.append({"a": L(a), "form": "st"})
         # integer tensors combined with a (symbolic) Python scalar: the result is what NumPy/PyTorch give
+        # a *NumPy* scalar on either side (np.float64 is a Python float too): NumPy's scalar would take over `c op x` unless the
+        # tensor class tells it not to; the result must still be a Tensor with the documented values
+        out.append({"a": [3], "form": "st", "npscalar": "float64"})
+        out.append({"a": [2, 1], "form": "ts", "npscalar": "float64"})
+        out.append({"a": [3], "form": "st", "npscalar": "float32"})
         out.append({"a": [3], "form": "ts", "int": [1, -2, 3]})
         out.append({"a": [3], "form": "st", "int": [2, 4, -1]})
         return out
@@ -77,6 +82,8 @@ class _Binary(OpDef):
     def extra(self, args, env):
         if args["form"] == "tt":
             return {}
+        if "npscalar" in args:
+            return {"c": np.dtype(args["npscalar"]).type(0.5)}      # exactly representable, and so is its reciprocal
         nz = self.nz_b if args["form"] == "ts" else self.nz_a
         return {"c": env.scalar("c", lo=-3, hi=3, kind="data", nonzero=nz)}
 
